@@ -1,6 +1,8 @@
 """C12 — SDO block download delivers exactly the payload or fails visibly."""
 import binascii
 
+from canopen.sdo.client import BlockDownloadStream
+
 from peers.ref_block_server import RefBlockDownloadServer
 from peers.sdo_rig import Rig
 from props.blk_common import crc16, hx, nl, parse_data, unnl
@@ -9,6 +11,9 @@ ID = "C12"
 PROOF_MODULES = ["CanopenProofs.C12"]
 GENERATED = ["SdoBlock"]
 THEOREMS = [
+    "Canopen.C12.undisturbed_offers",
+    "Canopen.C12.unsized_completed_by_close",
+    "Canopen.C12.hand_loop_is_chunks",
     "Canopen.C12.undisturbed",
     "Canopen.C12.single_loss_repaired",
     "Canopen.C12.returns_normally_implies_exact",
@@ -32,8 +37,11 @@ TRUSTED = [
     "transfer with CRC (the Python reference server has its own bitwise CRC)",
     "queue.Queue modelled as FIFO list; time-outs as the abstract event 'queue empty when the client looks' "
     "(harness/peers/sdo_rig.py replaces canopen.sdo.client's queue/time module attributes; the peer's own "
-    "time-out fires first); io.BufferedWriter assumed to obey the RawIOBase caller contract (exercised with "
-    "buffer sizes 7, 8, 1024, default, and a hand loop on the raw stream)",
+    "time-out fires first); io.BufferedWriter is any RawIOBase caller: it offers prefixes of the unsent data and "
+    "advances by the count write() returns — the raw write() offers it makes are recorded when an operation is "
+    "generated, carried in the operation, checked to be unchanged at run time and replayed by the Lean driver "
+    "(buffer sizes 1, 2, 3, 7, 8, 13, 16, 32, 1024; payload written at once or in pieces; hand loop on the raw "
+    "stream); not modelled: a BufferedWriter that offers its buffer once more from close() after a raw write raised",
 ]
 ASSUMPTIONS = [
     "responses are 8 bytes long (a conformant server; shorter frames raise struct.error in the client and are "
@@ -41,13 +49,18 @@ ASSUMPTIONS = [
     "only client-to-server frames are lost (lost or altered responses belong to C07)",
     "block sizes announced by the server are in 1..127",
 ]
-RULE = ("ops `bdl idx sub data size crcreq srvcrc blks loss buf` (one whole transfer per line: real SdoClient on a "
-        "synchronous in-memory bus against the Python reference block server; compared: every frame on the bus "
-        "in order incl. lost ones, committed payload, server's illegality flag, ok/err) and `crc data init`; "
+RULE = ("ops `bdl idx sub data size crcreq srvcrc blks loss buf offers` (one whole transfer per line: real SdoClient on a "
+        "synchronous in-memory bus against the Python reference block server; buf = 0: hand loop on the raw stream, "
+        "B: BufferedWriter(B) given the payload at once, BcK: in pieces of K bytes; offers = lengths of the raw "
+        "write() offers that caller made (- = always the whole remainder), replayed by the model; compared: every "
+        "frame on the bus in order incl. lost ones, committed payload, server's illegality flag, ok/err) and `crc "
+        "data init`; "
         "lengths 1..64, 7k-1..7k+1, blk*7*k-1..+1 for blk in {1,2,7,127}, 889k+-1, up to 10^4; block-size "
         "streams constant {1,2,7,127} and seeded changing; CRC requested/supported in all four combinations; "
-        "every single lost frame position of selected transfers, seeded multi-loss; declared size absent/wrong "
-        "in a few; non-trivial = the transfer returned normally")
+        "every single lost frame position of selected transfers (raw and through buffers fed in pieces), seeded "
+        "multi-loss; size not declared: every length 1..64 raw and buffered (must succeed unless the length is a "
+        "multiple of 7, where no segment can carry c=1 and the transfer must fail with nothing committed); declared "
+        "size wrong in a few; non-trivial = the transfer returned normally")
 
 
 def parse(op):
@@ -55,14 +68,51 @@ def parse(op):
     return dict(idx=int(a[1]), sub=int(a[2]), payload=parse_data(a[3]),
                 size=None if a[4] == "-" else int(a[4]), crcreq=a[5] == "1", srvcrc=a[6] == "1",
                 blks=unnl(a[7]), loss=set(unnl(a[8])), buf=int(a[9].split("c")[0]),
-                chunk=int(a[9].split("c")[1]) if "c" in a[9] else None)
+                chunk=int(a[9].split("c")[1]) if "c" in a[9] else None,
+                offers=None if len(a) < 11 or a[10] == "-" else unnl(a[10]))
 
 
-def run_bdl(p):
+def hand_pattern(n, seen):
+    """are the raw offers those of a caller that always offers the whole unsent remainder?"""
+    left = n
+    for k, ret in seen:
+        if k != left:
+            return False
+        left -= ret or 0
+    return True
+
+
+def run_bdl(p, seen=None):
+    """`seen` collects (length offered, count returned or None if it raised) of every raw write() call made
+    by the caller (not the re-entrant ones of _retransmit)"""
     srv = RefBlockDownloadServer(p["blks"], p["srvcrc"])
     loss = p["loss"]
     rig = Rig(5, srv, lose_req=lambda n, f: n in loss)
     payload = p["payload"]
+    orig = BlockDownloadStream.write
+    depth = [0]
+
+    def rec(self, b):
+        top = depth[0] == 0
+        if top and seen is not None:
+            seen.append([len(b), None])
+            mine = seen[-1]
+        depth[0] += 1
+        try:
+            n = orig(self, b)
+        finally:
+            depth[0] -= 1
+        if top and seen is not None:
+            mine[1] = n
+        return n
+    BlockDownloadStream.write = rec
+    try:
+        return _run_bdl(p, rig, srv, payload)
+    finally:
+        BlockDownloadStream.write = orig
+
+
+def _run_bdl(p, rig, srv, payload):
     try:
         with rig.client.open(p["idx"], p["sub"], "wb", buffering=p["buf"], size=p["size"],
                              block_transfer=True, request_crc_support=p["crcreq"]) as fp:
@@ -82,23 +132,18 @@ def run_bdl(p):
     return res, srv, rig
 
 
-def model_skips(op):
-    """TEMPORARY (until the model of BlockDownloadStream.write/close follows /repo ac075cc): transfers whose
-    declared size is absent or differs from the payload length reach the changed `_pending` logic; they are
-    judged by the oracle only"""
-    a = op.split(" ")
-    if a[0] != "bdl":
-        return False
-    return a[4] == "-" or int(a[4]) != len(parse_data(a[3]))
-
-
 def run_impl(op):
     a = op.split(" ")
     if a[0] == "crc":
         return f"ok {binascii.crc_hqx(parse_data(a[1]), int(a[2]))}"
     if a[0] != "bdl":
         return "bad-op"
-    res, srv, rig = run_bdl(parse(op))
+    p = parse(op)
+    seen = []
+    res, srv, rig = run_bdl(p, seen)
+    # the op carries the raw write() offers observed when it was generated (`-` = always the whole remainder)
+    if (hand_pattern(len(p["payload"]), seen) if p["offers"] is None else [k for k, _ in seen] == p["offers"]) is False:
+        return f"OFFERS-CHANGED {[k for k, _ in seen][:40]}"
     committed = "none" if srv.committed is None else hx(srv.committed)
     ill = "-" if srv.illegal is None else str(srv.illegal)
     return f"{res} {committed} {ill} " + ",".join(rig.trace)
@@ -111,8 +156,8 @@ def ideal_requests(p):
     request with n and (when negotiated — this client also sends it when only the server
     supports it) the CRC.  Returns (frames, index of first segment of the final sub-block)."""
     payload, blks = p["payload"], p["blks"]
-    cmd = 0xC0 | (4 if p["crcreq"] else 0) | 2
-    frames = [bytes([cmd, p["idx"] & 0xFF, p["idx"] >> 8, p["sub"]]) + len(payload).to_bytes(4, "little")]
+    cmd = 0xC0 | (4 if p["crcreq"] else 0) | (2 if p["size"] is not None else 0)
+    frames = [bytes([cmd, p["idx"] & 0xFF, p["idx"] >> 8, p["sub"]]) + (p["size"] or 0).to_bytes(4, "little")]
     chunks = [payload[i:i + 7] for i in range(0, len(payload), 7)]
     k, seq, blk = 1, 0, blks[0]
     final_start = 1
@@ -138,6 +183,8 @@ def oracle(op, out):
         return None if out == exp else f"crc_hqx gave {out}, CRC-16/XMODEM is {exp}"
     if a[0] != "bdl":
         return None
+    if out.startswith("OFFERS-CHANGED"):
+        return None
     p = parse(op)
     o = out.split(" ")
     if len(o) != 4 or o[0] not in ("ok", "err"):
@@ -147,8 +194,21 @@ def oracle(op, out):
     if res == "ok" and committed != hx(payload):
         return ("silent corruption: block download returned normally but the server committed "
                 + (committed[:40] if committed != "none" else "nothing"))
-    if p["size"] != len(payload) or not payload:
+    if not payload:
         return None
+    if p["size"] is None and len(payload) % 7 == 0:
+        # Size not declared and the data ends on a segment boundary: no write() can know that its segment is the
+        # last one, none carries c=1, close() has nothing kept back and sends the end request into the open
+        # sub-block; the server answers with an acknowledge and close() raises (behaviour unchanged by the fix of
+        # write()).  Required: a visible failure with nothing committed — or, should the code learn to complete
+        # such a transfer, success with exactly the payload (checked above).
+        if not p["loss"] and res != "ok" and committed != "none":
+            return f"undisturbed: the transfer failed but the server committed {committed[:40]}"
+        return None
+    if p["size"] is not None and p["size"] != len(payload):
+        return None         # wrong declared size: outside the property (only 'no silent corruption' above)
+    # declared size, or no declared size and a last partial segment that close() sends (C12
+    # unsized_completed_by_close): the same conversation, whatever pieces the caller wrote (undisturbed_offers)
     reqs = [bytes.fromhex(e[1:]) for e in trace.split(",") if e[0] in ">x"]
     frames, final_start = ideal_requests(p)
     if not p["loss"]:
@@ -199,8 +259,13 @@ def classify(op, out):
 
 
 def fmt(idx, sub, data, size, crcreq, srvcrc, blks, loss, buf):
-    return (f"bdl {idx} {sub} {data} {'-' if size is None else size} {int(crcreq)} {int(srvcrc)} "
-            f"{nl(blks)} {nl(sorted(loss))} {buf}")
+    """the operation with the raw write() offers the caller makes on the code as it is (recorded by running it)"""
+    op = (f"bdl {idx} {sub} {data} {'-' if size is None else size} {int(crcreq)} {int(srvcrc)} "
+          f"{nl(blks)} {nl(sorted(loss))} {buf}")
+    p = parse(op + " -")
+    seen = []
+    run_bdl(p, seen)
+    return op + " " + ("-" if hand_pattern(len(p["payload"]), seen) else nl([k for k, _ in seen]))
 
 
 def shrink_candidates(op):
@@ -213,12 +278,12 @@ def shrink_candidates(op):
     for m in (n // 2, n - 7, n - 1):
         if 1 <= m < n:
             yield fmt(p["idx"], p["sub"], "h" + p["payload"][:m].hex(), m if sized else p["size"],
-                      p["crcreq"], p["srvcrc"], p["blks"], p["loss"], p["buf"])
+                      p["crcreq"], p["srvcrc"], p["blks"], p["loss"], a[9])
     for l in sorted(p["loss"]):
         yield fmt(p["idx"], p["sub"], a[3], p["size"], p["crcreq"], p["srvcrc"], p["blks"],
-                  p["loss"] - {l}, p["buf"])
+                  p["loss"] - {l}, a[9])
     if len(p["blks"]) > 1:
-        yield fmt(p["idx"], p["sub"], a[3], p["size"], p["crcreq"], p["srvcrc"], p["blks"][:1], p["loss"], p["buf"])
+        yield fmt(p["idx"], p["sub"], a[3], p["size"], p["crcreq"], p["srvcrc"], p["blks"][:1], p["loss"], a[9])
     if p["buf"] != 0:
         yield fmt(p["idx"], p["sub"], a[3], p["size"], p["crcreq"], p["srvcrc"], p["blks"], p["loss"], 0)
 
@@ -324,29 +389,54 @@ def gen_ops(tier, rng):
             g = rng.randint(1, nf)
             loss = set(range(g, g + rng.randint(2, 5)))
         yield mk(n, blks, loss=loss)
-    # declared size absent / wrong (outside the property; keeps those model branches tied)
+    # declared size absent: every small length, raw and through buffers fed in pieces (close() completes the
+    # transfer unless the length is a multiple of 7); some with a lost frame
+    for n in range(1, 65):
+        yield mk(n, [3] if n % 2 else rblks(), size=None)
+        bs, k = rng.choice([(8, 10), (7, 9), (2, 3), (13, 1), (8, 8), (3, 20), (1024, 5), (16, 7), (32, 11)])
+        yield mk(n, rblks(), size=None, buf=f"{bs}c{k}")
+    for n in (700, 889 + 5, 1778, 2100) + ((5000, 889 * 4 + 3) if thorough else ()):
+        yield mk(n, [127], size=None, buf=rng.choice(["1024c600", "1024c7", "0", "1024", "64c64"]))
+    for n, bs, k in ((30, 8, 10), (29, 13, 1), (50, 8, 8), (22, 1024, 5)):
+        for g in range(0, nframes(n, None) + 3):
+            yield mk(n, [3, 2], loss=[g], size=None, buf=f"{bs}c{k}")
+    # every single lost frame of transfers written in pieces through small buffers (the kept-back bytes and
+    # the retransmission meet)
+    for n, bs, k in ((30, 8, 10), (64, 7, 9), (100, 16, 3), (29, 13, 1), (50, 8, 8), (70, 1024, 5)) + \
+            (((200, 32, 11), (889 + 30, 1024, 100)) if thorough else ()):
+        for g in range(0, nframes(n, None) + 3):
+            yield mk(n, rng.choice([[3], [2, 5], [127]]), loss=[g], buf=f"{bs}c{k}")
+    # declared size wrong (outside the property; keeps those model branches tied)
     for n in (1, 6, 7, 8, 20, 21, 30):
-        for size in (None, n - 1, n + 1, n + 7, 0):
+        for size in (n - 1, n + 1, n + 7, 0):
             yield mk(n, [3], size=size)
+            yield mk(n, [3], size=size, buf="8c3")
 
 
 CORPUS = [
-    "bdl 8192 1 h0102030405060708090a0b0c0d0e0f101112131415161718191a1b1c1d1e 30 1 1 3,2 - 0",
-    "bdl 8192 1 h0102030405060708090a0b0c0d0e0f101112131415161718191a1b1c1d1e 30 1 1 3,2 2 1024",
-    "bdl 8192 1 h0102030405060708090a0b0c0d0e0f101112131415161718191a1b1c1d1e 30 1 1 3,2 5 0",
-    "bdl 8192 1 r1:70 70 1 1 4,2 2,6 0",     # nested retransmission: CRC spoilt, server aborts
-    "bdl 8192 1 r1:70 70 0 0 4,2 2,6 7",     # same without CRC: repaired
+    "bdl 8192 1 h0102030405060708090a0b0c0d0e0f101112131415161718191a1b1c1d1e 30 1 1 3,2 - 0 -",
+    "bdl 8192 1 h0102030405060708090a0b0c0d0e0f101112131415161718191a1b1c1d1e 30 1 1 3,2 2 1024 -",
+    "bdl 8192 1 h0102030405060708090a0b0c0d0e0f101112131415161718191a1b1c1d1e 30 1 1 3,2 5 0 -",
+    "bdl 8192 1 r1:70 70 1 1 4,2 2,6 0 -",     # nested retransmission: CRC spoilt, server aborts
+    "bdl 8192 1 r1:70 70 0 0 4,2 2,6 7 -",     # same without CRC: repaired
 ]
 
 LEVEL_TEXT = ("Lean 4 theorems about the model of BlockDownloadStream composed with a conformant block-download server, for "
               "every payload (1 <= length < 2^32, size declared), every stream of block sizes 1..127, CRC requested / "
               "supported or not, every multiplexer: undisturbed = ok, committed = payload, strict server flags nothing, "
-              "client frames = the CiA 301 conversation (sequence numbers, c bit, n, CRC); one lost segment outside the "
+              "client frames = the CiA 301 conversation (sequence numbers, c bit, n, CRC) — for ANY caller, i.e. any "
+              "split of the payload into raw write() offers, each answered with the number of bytes taken "
+              "(undisturbed_offers); without a declared size a payload whose length is not a multiple of 7 is completed "
+              "by close() (unsized_completed_by_close); the hand loop equals the 7-byte chunk form in every environment "
+              "(hand_loop_is_chunks), for which: one lost segment outside the "
               "final sub-block is repaired; under ANY set of lost client frames a normal return implies committed = "
               "payload (unbounded, any fuel); model tied to the code by generated constants and a differential run "
-              "over whole transfers incl. every single-loss position and seeded multi-loss")
+              "over whole transfers incl. every single-loss position and seeded multi-loss, the raw write() offers of "
+              "io.BufferedWriter recorded and replayed")
 LEVEL_NOTE = ("trusted: Lean kernel + propext/Classical.choice/Quot.sound; the reference server specification (written "
               "twice); queue/time-out/BufferedWriter abstractions named in the trusted base; the retransmission "
               "recursion is modelled with an explicit continuation stack and fuel, and fuel_suffices proves the fuel "
-              "the driver passes is never exhausted for any finite loss set")
+              "the driver passes is never exhausted for any finite loss set (hand loop; for other callers the loss "
+              "theorems are not stated and the explicit fuel is covered by the differential run only); size not "
+              "declared and a length that is a multiple of 7 fails (no segment can carry c=1) — allowed by the property")
 TECHNIQUE = "Lean 4 proof over generated tables + differential correspondence with the implementation"
